@@ -510,3 +510,63 @@ Proof.
   split; [split; [reflexivity|intros row [<-|[<-|[<-|[]]]]; reflexivity]|].
   vm_compute. reflexivity.
 Qed.
+
+(* ---- the RAISE paths of the whole call (the model has none: these inputs are outside its well-formedness predicate; the
+   theorems say what the interpreted source does there).  [TiePre.in_tensor bf T N f]: the (T x N) matrix f handed over in
+   the layout asked for. ---- *)
+From PV Require MiniTorch.LemmasC01 C01.TiePre C01.TieRaise C01.TiePRaise.
+
+(* `if ref.dim() != 2 or hyp.dim() != 2: raise RuntimeError` - any tensors, any other arguments; edit_distance's call *)
+Theorem c01_source_raises_dim :
+  forall (x y : MiniTorch.OpsC07.tn Z) (eos : option Z) (incl bf : bool) (qi qd qs : QArith_base.Q) (w nm : bool) (pad : Z),
+  (length (MiniTorch.OpsC07.shp x) <> 2 \/ length (MiniTorch.OpsC07.shp y) <> 2)%nat ->
+  exists st', MiniPy.Interp.run SrcRun.ext01 Gen.C01Src.sm_body (SrcRun.sm_vars x y eos incl bf qi qd qs w nm pad)
+              = MiniPy.Interp.Exc SrcRun.runtime_error st'.
+Proof. exact TieRaise.string_matching_raises_dim. Qed.
+Print Assumptions c01_source_raises_dim.
+
+(* ... and prefix_edit_distances' call *)
+Theorem c01_source_prefix_raises_dim :
+  forall (g : nat -> MiniTorch.OpsC01.fx) (x y : MiniTorch.OpsC07.tn Z) (eos : option Z) (incl bf : bool)
+         (qi qd qs : QArith_base.Q) (w nm : bool) (pad : Z) (excl : bool),
+  (length (MiniTorch.OpsC07.shp x) <> 2 \/ length (MiniTorch.OpsC07.shp y) <> 2)%nat ->
+  exists st', MiniPy.Interp.run (SrcRunP.ext01p g) Gen.C01Src.sm_body (SrcRunP.smp_vars x y eos incl bf qi qd qs w nm pad excl)
+              = MiniPy.Interp.Exc SrcRun.runtime_error st'.
+Proof. exact TiePRaise.prefix_raises_dim. Qed.
+Print Assumptions c01_source_prefix_raises_dim.
+
+(* `if batch_size != batch_size_: raise RuntimeError` - ref (R x N), hyp (H x N'), N <> N', either layout *)
+Theorem c01_source_raises_batch :
+  forall (s : positive) (c : cfg) (R N H N' : nat) (rf hf : nat -> nat -> Z) (w : bool), N <> N' -> forall (pad : Z),
+  exists st', MiniPy.Interp.run SrcRun.ext01 Gen.C01Src.sm_body
+                (SrcRun.sm_vars (TiePre.in_tensor (c_bf c) R N rf) (TiePre.in_tensor (c_bf c) H N' hf)
+                   (c_eos c) (c_incl c) (c_bf c)
+                   (MiniTorch.LemmasC01.qz s (c_ins c)) (MiniTorch.LemmasC01.qz s (c_del c)) (MiniTorch.LemmasC01.qz s (c_sub c))
+                   w (c_norm c) pad)
+              = MiniPy.Interp.Exc SrcRun.runtime_error st'.
+Proof. exact TieRaise.string_matching_raises_batch. Qed.
+Print Assumptions c01_source_raises_batch.
+
+(* an eos together with a zero-width ref or hyp: IndexError out of `_lens_from_eos` (torch.max over an empty dimension) -
+   why c01_source_*_is_model assume non-zero widths when an eos is given *)
+Theorem c01_source_raises_zero_width :
+  forall (s : positive) (c : cfg) (R N H : nat) (rf hf : nat -> nat -> Z) (w : bool) (e pad : Z),
+  c_eos c = Some e -> (R = 0 \/ H = 0)%nat ->
+  exists st', MiniPy.Interp.run SrcRun.ext01 Gen.C01Src.sm_body
+                (SrcRun.sm_vars (TiePre.in_tensor (c_bf c) R N rf) (TiePre.in_tensor (c_bf c) H N hf)
+                   (c_eos c) (c_incl c) (c_bf c)
+                   (MiniTorch.LemmasC01.qz s (c_ins c)) (MiniTorch.LemmasC01.qz s (c_del c)) (MiniTorch.LemmasC01.qz s (c_sub c))
+                   w (c_norm c) pad)
+              = MiniPy.Interp.Exc SrcRun.index_error st'.
+Proof. exact TieRaise.string_matching_raises_zero_width. Qed.
+Print Assumptions c01_source_raises_zero_width.
+
+(* exclude_last on a hypothesis tensor without time steps (no eos): `prefix_ers = torch.empty((0, N))`, then
+   `prefix_ers[0] = ...` raises IndexError - the boundary of the hypothesis `c_excl c = true -> H <> 0` above *)
+Theorem c01_source_prefix_raises_empty_hyp :
+  forall (g : nat -> MiniTorch.OpsC01.fx) (s : positive) (c : cfg) (N R : nat) (ref hyp : list (list Z)) (w : bool),
+  (0 < N)%nat -> Tie.wf_src (c_bf c) N R ref -> Tie.wf_src (c_bf c) N 0 hyp ->
+  c_eos c = None -> c_excl c = true ->
+  exists st', TieP.run_prefix g s c N ref hyp w = MiniPy.Interp.Exc SrcRun.index_error st'.
+Proof. exact TiePRaise.prefix_raises_empty_hyp. Qed.
+Print Assumptions c01_source_prefix_raises_empty_hyp.
